@@ -56,3 +56,7 @@
 (assert (forall ((h Str) (t SL)) (! (hasprefix (bjoin (scons h t) sep0) h) :pattern ((bjoin (scons h t) sep0)))))
 ; second component of a split join (first two components NUL-free)
 (assert (forall ((a Str) (b Str) (t SL)) (! (=> (and (nozero a) (nozero b) ((_ is snil) t)) (= (slnth (bsplit (bjoin (scons a (scons b t)) sep0) sep0) 1) b)) :pattern ((bjoin (scons a (scons b t)) sep0)))))
+; first byte: shared by a key and each of its non-empty prefixes; the first byte of a join is that of its first component
+; @literal firstbyte
+(assert (forall ((k Str) (p Str)) (! (=> (and (hasprefix k p) (>= (strlen p) 1)) (= (bget k 0) (bget p 0))) :pattern ((hasprefix k p)))))
+(assert (forall ((h Str) (t SL)) (! (=> (>= (strlen h) 1) (= (bget (bjoin (scons h t) sep0) 0) (bget h 0))) :pattern ((bjoin (scons h t) sep0)))))
